@@ -264,3 +264,20 @@ Example ex_ilog : U_checked_ilog true 8 [255; 255] [3; 0] = Some (Ret (Some 10))
 Proof. vm_compute. repeat split; reflexivity. Qed.
 Example ex_ilog2 : U_checked_ilog2 8 [0; 128] = Some 15 /\ U_checked_ilog2 8 [0; 0] = None /\ I_checked_ilog2 8 [0; 128] = None.
 Proof. vm_compute. repeat split; reflexivity. Qed.
+(* ---- tie to the source: the pow LOOPS REGENERATED from /repo/src/buint/{overflowing,checked,wrapping}.rs on every run
+   (Generated/Loops.v, tools/rs2v_loops.py; control-flow vocabulary Model/Imp.v) compute exactly the model's functions
+   (which recurse over the binary numeral of the exponent): for N > 0 (`Self::ONE = from_digit(1)` indexes digit 0), an
+   exponent >= 0 (a u32) and an iteration budget of at least log2(exponent) they neither panic nor run out of budget.
+   The multiplications in the loop are calls of the model's U_overflowing_mul / U_checked_mul / U_wrapping_mul. ---- *)
+From Bnum.Model Require Import Imp.
+From Bnum.Generated Require Import Loops.
+From Bnum.Proofs Require Import LoopsTieC08.
+Theorem C08_loops_rs_match_model w :
+  (forall n a e fuel, (0 < n)%nat -> wf w n a -> 0 <= e -> (Z.to_nat (Z.log2 e) <= fuel)%nat ->
+     Loops.overflowing_pow w (Z.of_nat n) fuel a e = Done (U_overflowing_pow w a e)) /\
+  (forall n a e fuel, (0 < n)%nat -> wf w n a -> 0 <= e -> (Z.to_nat (Z.log2 e) <= fuel)%nat ->
+     Loops.checked_pow w (Z.of_nat n) fuel a e = Done (U_checked_pow w a e)) /\
+  (forall n a e fuel, (0 < n)%nat -> wf w n a -> 0 <= e -> (Z.to_nat (Z.log2 e) <= fuel)%nat ->
+     Loops.wrapping_pow w (Z.of_nat n) fuel a e = Done (U_wrapping_pow w a e)).
+Proof. exact (loops_C08_match_model w). Qed.
+Print Assumptions C08_loops_rs_match_model.
